@@ -76,6 +76,12 @@ def run_one(s):
         r = watched(hist_box)
         tr["pbox_hist"] = box_out(torch.as_tensor(r[1])) if r[0] == "ok" else []
         tr["pbox_hist_exc"] = "" if r[0] == "ok" else (r[1] if len(r) > 1 else "hang")
+    # whole-number positions given as INTEGER tensors (torch.tensor([1, -2])): the same box
+    tr["boxint"], tr["boxint_exc"] = [], "none"
+    if e["k"] in ("circle", "sphere", "par", "tri") and not names:
+        r = watched(lambda: U.build_intpos(e).bounding_box())
+        tr["boxint"] = box_out(torch.as_tensor(r[1]).to(torch.float64)) if r[0] == "ok" else []
+        tr["boxint_exc"] = "" if r[0] == "ok" else (r[1] if len(r) > 1 else "hang")
     # the same shape far away from the origin (1e6, 2e6, ...): the measure does not depend on where the shape is
     tr["volfar"], tr["volfar_exc"] = [], "none"
     js_ = __import__("json").dumps(e)
